@@ -225,10 +225,27 @@ def run(tier):
         def __init__(self, d):
             self.discipline = d
 
+    import collections, types
+
+    class Rec(dict):
+        pass
+
+    class Slots(object):
+        __slots__ = ('discipline',)
+
+        def __init__(self, d):
+            self.discipline = d
+    makers = [lambda d, pos: dict(discipline=d, tag=pos), lambda d, pos: Obj(d), lambda d, pos: collections.OrderedDict(discipline=d, tag=pos),
+              lambda d, pos: Rec(discipline=d), lambda d, pos: types.SimpleNamespace(discipline=d), lambda d, pos: Slots(d),
+              lambda d, pos: collections.defaultdict(lambda: None, discipline=d)]
     for n in (0, 1, 2, 3):
         for combo in itertools.product(range(len(pool)), repeat=n):
+          for mk in ([None] + list(range(2, len(makers))) if n == 2 else [None]):
             acc.n += 1
-            things = [dict(discipline=pool[i], tag=pos) if (i + pos) % 2 else Obj(pool[i]) for pos, i in enumerate(combo)]
+            if mk is None:
+                things = [dict(discipline=pool[i], tag=pos) if (i + pos) % 2 else Obj(pool[i]) for pos, i in enumerate(combo)]
+            else:
+                things = [makers[mk](pool[i], pos) for pos, i in enumerate(combo)]        # all records of one other kind: dict subclasses, namespaces, slots
             disc = lambda t: t.get('discipline') if isinstance(t, dict) else t.discipline
             try:
                 out = U.sort_by_discipline(list(things))
